@@ -19,8 +19,8 @@ package absnfs
 //@ ensures [bounded] isnil(result1) ==> len(result0) <= rmMax(rm)
 // a record sent as one fragment (the only framing this server's writer produces below its fragment size)
 // is returned exactly, consuming exactly header + payload
-//@ ensures [single-fragment-exact] isnil(result1) && fragLast(rdata[valof(rm.r)], old(rpos[valof(rm.r)])) ==> len(result0) == fragLen(rdata[valof(rm.r)], old(rpos[valof(rm.r)])) && rpos[valof(rm.r)] == old(rpos[valof(rm.r)]) + 4 + len(result0) && forall(k, 0, len(result0), result0[k] == rdata[valof(rm.r)][old(rpos[valof(rm.r)]) + 4 + k], result0[k])
-//@ ensures [single-fragment-accepted] fragLast(rdata[valof(rm.r)], old(rpos[valof(rm.r)])) && fragLen(rdata[valof(rm.r)], old(rpos[valof(rm.r)])) <= rmMax(rm) && rlen[valof(rm.r)] - old(rpos[valof(rm.r)]) >= 4 + fragLen(rdata[valof(rm.r)], old(rpos[valof(rm.r)])) && be32(rdata[valof(rm.r)], old(rpos[valof(rm.r)])) <= 4294967295 ==> isnil(result1)
+//@ ensures [single-fragment-exact] {C13, C15, C28} isnil(result1) && fragLast(rdata[valof(rm.r)], old(rpos[valof(rm.r)])) ==> len(result0) == fragLen(rdata[valof(rm.r)], old(rpos[valof(rm.r)])) && rpos[valof(rm.r)] == old(rpos[valof(rm.r)]) + 4 + len(result0) && forall(k, 0, len(result0), result0[k] == rdata[valof(rm.r)][old(rpos[valof(rm.r)]) + 4 + k], result0[k])
+//@ ensures [single-fragment-accepted] {C13, C15, C28} fragLast(rdata[valof(rm.r)], old(rpos[valof(rm.r)])) && fragLen(rdata[valof(rm.r)], old(rpos[valof(rm.r)])) <= rmMax(rm) && rlen[valof(rm.r)] - old(rpos[valof(rm.r)]) >= 4 + fragLen(rdata[valof(rm.r)], old(rpos[valof(rm.r)])) && be32(rdata[valof(rm.r)], old(rpos[valof(rm.r)])) <= 4294967295 ==> isnil(result1)
 //@ ensures [fresh-result] isnil(result1) ==> fresh(result0)
 //@ loop 1 invariant rm != nil && rm.fragmentBuf == old(rm.fragmentBuf) && rm.r == old(rm.r) && rm.MaxRecordSize == old(rm.MaxRecordSize) && maxSize == rmMax(rm) && 0 <= wlen[rm.fragmentBuf] && wlen[rm.fragmentBuf] <= maxSize && rpos[valof(rm.r)] >= old(rpos[valof(rm.r)])
 //@ loop 1 invariant valof(rm.r) != rm.fragmentBuf ==> rdata == old(rdata)
